@@ -32,7 +32,8 @@ CONSTANTS MaxN,     \* parties: 2 <= t <= n <= MaxN
           MaxL,     \* message vector lengths 1..MaxL
           FullL,    \* lengths <= FullL: every vector over the 3-symbol alphabet; longer: one vector per equality pattern
           CatL,     \* C09: message lengths used for the perturbation catalogue
-          Kinds     \* "one": one perturbation kind per field, "all": every kind, swaps, cross-session, every signer
+          Kinds     \* "one": one algebraic perturbation and the cross-session substitution per field, first and last index, first signer;
+                    \* "all": every kind, every index, swaps, substitution from a fresh proof, every signer
 
 Q == 46337
 
@@ -162,8 +163,10 @@ BlsExpect(cs, c) ==
       agg == IF c.obj = "sig" THEN PertV(agg0, c.kind, AggPos(sharesX, pts0)) ELSE agg0
       key == IF c.obj = "tpk" THEN PertV(tpk1, c.kind, tpk2) ELSE tpk1
       m == IF c.obj = "msg" THEN 2 ELSE 1
+      \* a permutation of the signer list that gives every share the coefficient it had before is no alteration at all
+      \* (e.g. the points 1 and 3 of {1,2,3,4} have the same Lagrange coefficient, 4)
       changed == \/ c.obj \in {"msg", "pk", "fewer"}
-                 \/ Sx # S \/ shares # shares0 \/ agg # agg0 \/ key # tpk1
+                 \/ (Sx # S /\ (panics \/ Lams(pts) # Lams(pts0))) \/ shares # shares0 \/ agg # agg0 \/ key # tpk1
   IN IF panics THEN Res("reject", "aggregate", "panic", changed)
      ELSE IF BlsVerify(cs, key, m, agg) THEN Res("accept", "verify", "ok", changed)
      ELSE Res("reject", "verify", "PAIR", changed)
@@ -338,7 +341,7 @@ PsExpect(cs, c) ==
     [] c.obj = "wassign" ->
          \* witnesses combined under other signers' evaluation points
          LET Sx == IF c.kind = "swap" THEN SwapSeq(S, c.i, c.j) ELSE [q \in 1..Len(S) |-> (S[q] % n) + 1]
-         IN [ver(PsProofOf(cs, 1, tpk1, sec, wits0, Sx), tpk1) EXCEPT !.changed = Sx # S]
+         IN [ver(PsProofOf(cs, 1, tpk1, sec, wits0, Sx), tpk1) EXCEPT !.changed = Lams(Sx) # Lams(S)]
     [] c.obj = "fewer" ->
          \* S has fewer than t signers
          IF LagrangePanics(S) THEN Res("reject", "aggregate", "panic", TRUE)
@@ -401,8 +404,8 @@ PsBasesFor(n, t, L) == {Base("ps", n, t, L, Iota(n), S, MvFor(L)) : S \in Signer
 PsBases == UNION {PsBasesFor(nt[1], nt[2], L) : nt \in NT, L \in CatL}
 
 All == Kinds = "all"
-PointKinds  == IF All THEN {"addgen", "double", "cross"} ELSE {"addgen"}
-ScalarKinds == IF All THEN {"plus1", "double", "cross"} ELSE {"plus1"}
+PointKinds  == IF All THEN {"addgen", "double", "cross"} ELSE {"addgen", "cross"}
+ScalarKinds == IF All THEN {"plus1", "double", "cross"} ELSE {"plus1", "cross"}
 Pairs(k) == IF All THEN {ij \in (1..k) \X (1..k) : ij[1] < ij[2]} ELSE {ij \in (1..k) \X (1..k) : ij[1] = 1 /\ ij[2] = 2}
 Fewer(c0) == LET sub == {T \in SUBSET Rng(c0.S) : Cardinality(T) >= 1 /\ Cardinality(T) < c0.t
                                                   /\ (All \/ Cardinality(T) = c0.t - 1)} IN
